@@ -44,6 +44,15 @@ static inline uint64_t spec_unpack_at(const uint8_t *buf, unsigned i, unsigned w
   return v;
 }
 
+#ifdef CQV
+/* ghost state referred to by contracts/delta*.ovl (verification side only) */
+size_t cqv_k;          /* arbitrary index: stands for "every k" */
+int64_t cqv_dummy;     /* valid assigns target when an output array is absent */
+uint8_t cqv_w[4];      /* flush_block: widths chosen for the 4 mini-blocks */
+int64_t cqv_min;       /* flush_block: min delta written */
+size_t cqv_needed;     /* flush_block: the encoder's packed_bytes_needed */
+#endif
+
 /* ---- state invariants of carquet's delta_decoder_t, used by the contracts (verification side) ---- */
 /* immutable part, established by delta_decoder_init: header fields are attacker-controlled */
 #define DELTA_DEC_HDR(d) ((d)->size <= CQV_MAXBUF \
@@ -56,4 +65,12 @@ static inline uint64_t spec_unpack_at(const uint8_t *buf, unsigned i, unsigned w
   && (d)->current_mini_block >= 0 && (d)->current_mini_block <= (d)->mini_blocks_per_block \
   && (d)->values_in_mini_block >= 0 && (d)->values_in_mini_block <= 32 \
   && (d)->mini_block_pos >= 0 && (d)->mini_block_pos <= 32 && (d)->values_decoded >= 0)
+
+/* C12, size of the mini-block payload of one block: sum over the 4 mini-blocks of 32*w/8 = 4*w bytes (every w <= 64).
+ * Compiled in only for the job that checks the byte layout against the specification. */
+#ifdef CQV_SPEC_SIZE
+#define DELTA_FLUSH_SPEC_SIZE(needed, w) ((needed) == (((size_t)(w)[0] + (size_t)(w)[1] + (size_t)(w)[2] + (size_t)(w)[3]) << 2))
+#else
+#define DELTA_FLUSH_SPEC_SIZE(needed, w) 1
+#endif
 #endif
